@@ -24,6 +24,7 @@ WEAK = {  # switch -> invariants one of which TLC must refute
     "ParamsBookkeeping": ["StoreLookups"],
     "BudgetUsesCurrentVals": ["ProposalFits"],
     "CommitAddrUnchecked": ["RebuildJudged", "AcceptedTimeIsSignerWeightedMedian"],
+    "StoredResponsesDropParamUpdates": ["NextStateSame"],
 }
 
 NOPU = {"any": False, "block": {"has": False, "maxBytes": 0, "maxGas": 0},
@@ -327,7 +328,8 @@ def run(ctx):
         elif r["ev"] == "Make":
             distinct.add(hashlib.sha1(json.dumps([r["block"], r["accepted"]], sort_keys=True).encode()).hexdigest())
         elif r["ev"] == "Apply":
-            distinct.add(hashlib.sha1(json.dumps([r["resp"], r["post"], r["ok"]], sort_keys=True).encode()).hexdigest())
+            distinct.add(hashlib.sha1(json.dumps([r["resp"], r["post"], r["ok"], [(x["variant"], x["mode"], x["ok"]) for x in r["rec"]]],
+                                                 sort_keys=True).encode()).hexdigest())
     sizes = [r for r in rows_s + rows_r + rows_t if r["ev"] == "Make" and r["req"]["fill"] > 0]
     over = [r for r in sizes if r["bytes"] > r["maxBytes"]]
     coverage = {
@@ -339,7 +341,9 @@ def run(ctx):
         "rule": "every history of the bounded TMBlockChain graph (export config: heights/deviations/genesis as listed in "
                 "tlc_runs) is executed on two real replicas; at every made block the complete TMBlockPerturb alphabet TLC "
                 "enumerated for it is applied to the real protobuf block and offered to the real ValidateBlock; distinct = "
-                "sha1 of (operation, observed delta, verdict) / (observed block, verdict) / (responses, observed next state)",
+                "sha1 of (operation, observed delta, verdict) / (observed block, verdict) / (responses, observed next state); "
+                "every applied block is also applied on two nodes that crash before stateStore.Save and recover through "
+                "Handshaker.ReplayBlocks from the stored ABCI responses (DiscardABCIResponses false / true)",
         "samples": [core.abridge([r for r in rows_t if r["ev"] == "Perturb"][:3], 3),
                     core.abridge([{k: r[k] for k in ("ev", "resp", "ok", "sA", "sB", "post")} for r in rows_t if r["ev"] == "Apply"][:1], 1),
                     core.abridge([{k: r[k] for k in ("ev", "bytes", "partsBytes", "maxBytes", "nVals", "nLastVals", "ntx")} for r in sizes[:3]], 3)],
@@ -349,6 +353,10 @@ def run(ctx):
         "pair_histories_replayed_without_perturbations": len(runs_p),
         "graph_made_blocks_replayed": made,
         "graph_perturbations_replayed": pert,
+        "blocks_applied_through_crash_recovery": sum(1 for r in allrows if r["ev"] == "Apply" for x in r["rec"]
+                                                     if x["ok"] and x["mode"] == "crash_replay"),
+        "blocks_recovery_variant_not_applicable": sum(1 for r in allrows if r["ev"] == "Apply" for x in r["rec"]
+                                                      if x["mode"] != "crash_replay"),
         "size_cases": len(runs_s),
         "size_proposals_measured": len(sizes),
         "size_proposals_over_maxbytes": len(over),
@@ -368,6 +376,9 @@ def run(ctx):
         "evidence = duplicate-vote evidence only; the application is an in-process ABCI app fed abstract responses, the "
         "replicas' apps differ in every field the header does not commit to (log, info, events, codespace)",
         "the size clause is judged on application hashes of at most 32 bytes (the header budget)",
+        "the crash is a state store whose Save fails after the application's Commit (the window of ApplyBlock's last "
+        "fail point); the first block of a chain with initial height > 1 has no recovery path to compare (ReplayBlocks "
+        "refuses store height > state height + 1 there) and is applied live on the recovery nodes",
         "a TLC verdict is accepted only if the verdict file covers every trace line",
     ], len(verdict.new))
     return rc
